@@ -17,7 +17,7 @@ from __future__ import annotations
 import asyncio
 import itertools
 
-from common import Coverage, Driver, hx, rng, unhx, violation
+from common import Coverage, Driver, coq_eval, hx, rng, unhx, violation
 from ref import c09_reqgrammar as G
 from ref.c09_accessory import Accessory, FakeSock, MemTransport, accessories_doc, tlv_dec, tlv_enc
 
@@ -410,7 +410,7 @@ def gen_scenarios(tier, r):
                    ("identify",), ("list_pairings",), ("add_pairing", "id-1", "00" * 32, "Admin"),
                    ("remove_pairing", "id-1"), ("image", 1, 640, 480)]
         scs.append(dict(mode=mode, host=host, hostkind=hk, port=r.choice([80, 5001, 51826]), ops=ops))
-    n = 150 if tier == "quick" else 3000
+    n = 260 if tier == "quick" else 5000
     for i in range(n):
         hk, host = r.choice(HOSTS)
         mode = "secure" if i % 3 else "plain"
@@ -418,6 +418,39 @@ def gen_scenarios(tier, r):
         scs.append(dict(mode=mode, host=host, hostkind=hk, port=r.choice([80, 5001, 51826, 65535]), ops=ops))
     return scs
 
+
+
+# ---------------------------------------------------------------------------- replay encoding of ops
+_TYPES = {"list": list, "set": set, "tuple": tuple, "iter": iter}
+
+
+def enc(x):
+    if isinstance(x, (bytes, bytearray)):
+        return {"b": hx(bytes(x))}
+    if isinstance(x, type) or x is iter:
+        return {"t": x.__name__}
+    if isinstance(x, tuple):
+        return {"tu": [enc(y) for y in x]}
+    if isinstance(x, list):
+        return {"l": [enc(y) for y in x]}
+    if isinstance(x, dict):
+        return {"d": [[k, enc(v)] for k, v in x.items()]}
+    return x
+
+
+def dec(x):
+    if isinstance(x, dict):
+        if "b" in x:
+            return unhx(x["b"])
+        if "t" in x:
+            return _TYPES[x["t"]]
+        if "tu" in x:
+            return tuple(dec(y) for y in x["tu"])
+        if "l" in x:
+            return [dec(y) for y in x["l"]]
+        if "d" in x:
+            return {k: dec(v) for k, v in x["d"]}
+    return x
 
 # ---------------------------------------------------------------------------- analysis helpers
 def extract(cap):
@@ -531,6 +564,8 @@ def mutate(r, base: bytes):
     b = bytearray(base)
     k = r.randrange(16)
     he = base.find(b"\r\n\r\n")
+    if he < 2 or b"Host: " not in base[:he]:
+        k = r.choice([0, 1, 8, 9, 15])      # already damaged: only position-free mutations
     if k == 0 and b:
         del b[r.randrange(len(b))]
     elif k == 1:
@@ -592,9 +627,21 @@ def run(ctx):
         seen_keys.add(key)
         viols.append(violation(key, what, found, **payload))
 
+    rp = None
+    if ctx.get("replay"):
+        import json as _json
+        rp = _json.load(open(ctx["replay"]))
+    streams = {rp.get("stream", "req")} if rp else {"req", "json", "mut", "url"}
+
     # ================================================================ req stream
     r = rng(seed, "c09req")
-    scs = gen_scenarios(tier, r)
+    scs = gen_scenarios(tier, r) if rp is None else []
+    if rp and "req" in streams and "op_json" in rp:
+        op = dec(rp["op_json"])
+        ops = ([] if op[0] in ("pair_verify", "connect") else [op])
+        if rp["mode"] == "secure" and ops and ops[0][0] != "list_accessories":
+            ops = [("list_accessories",)] + ops
+        scs = [dict(mode=rp["mode"], host=rp["host"], hostkind=rp.get("hostkind", "?"), port=rp["port"], ops=ops)]
     acc_doc = accessories_doc(AIDS, IIDS)
 
     async def all_scenarios():
@@ -657,7 +704,7 @@ def run(ctx):
 
     def replay(sc, rec, qi=None, **more):
         d = dict(stream="req", mode=sc["mode"], host=sc["host"], port=sc["port"],
-                 op=repr(rec["op"])[:600], outcome=rec["outcome"],
+                 op=repr(rec["op"])[:600], op_json=enc(rec["op"]), hostkind=sc["hostkind"], outcome=rec["outcome"],
                  requests=[dict(bytes_hex=hx(c.raw), text=c.raw[:400].decode("latin1"), transport_calls=len(c.calls),
                                 encrypted=c.secure) for c in rec["requests"]][:6])
         if qi is not None and qi < len(rec["requests"]):
@@ -688,7 +735,7 @@ def run(ctx):
                 asked = rec["asked"]
                 if len(exs) != len(asked):
                     add(f"wrong-request-count:{api}", f"{api}: {len(exs)} requests on the wire, the call asks for {len(asked)}",
-                        rec["outcome"] == "ok", **replay(sc, rec, asked=len(asked)))
+                        False, **replay(sc, rec, asked=len(asked)))
                     asked_why = [None] * len(exs)
                 else:
                     asked_why = [same_asked(a, ex) for a, ex in zip(asked, exs)]
@@ -769,6 +816,10 @@ def run(ctx):
     vals += [{a: b} for a in alpha for b in alpha[:4]]
     for _ in range(1500 if tier == "quick" else 40000):
         vals.append(gen_value(r))
+    if "json" not in streams:
+        vals = []
+    elif rp:
+        vals = [dec(rp["value_json"])] if "value_json" in rp else vals
     jl = ["jprint " + " ".join(jtoks(v)) for v in vals]
     jans = drv.batch(jl)
     from aiohomekit import hkjson
@@ -799,10 +850,10 @@ def run(ctx):
             orc = None   # outside orjson's integer domain the property says nothing
         if orc:
             add(f"noncanonical:{orc}:dump_bytes", f"hkjson.dump_bytes output is not the compact form ({orc})", True,
-                stream="json", value=repr(v)[:500], impl=impl[:600], expected=hx(G.ref_compact(v))[:600])
+                stream="json", value=repr(v)[:500], value_json=enc(v), impl=impl[:600], expected=hx(G.ref_compact(v))[:600])
         elif impl != model:
             add("json:model-mismatch", "hkjson.dump_bytes differs from the model jprint/dump_bytes", False,
-                stream="json", value=repr(v)[:500], impl=impl[:600], model=model[:600],
+                stream="json", value=repr(v)[:500], value_json=enc(v), impl=impl[:600], model=model[:600],
                 broken="correspondence Model/Request.v jprint <-> hkjson.dump_bytes (orjson)")
         cov.case("j" + repr(v), isinstance(v, (str, list, dict)),
                  sample=dict(stream="json", value=repr(v)[:200], impl=impl[:200]) if idx % 499 == 7 else None,
@@ -821,6 +872,10 @@ def run(ctx):
         if r.random() < 0.2:
             m = mutate(r, m)
         muts.append(m)
+    if "mut" not in streams:
+        muts = []
+    elif rp and "bytes_hex" in rp:
+        muts = [unhx(rp["bytes_hex"])]
     mans = drv.batch(["parse " + hx(m) for m in muts])
     base_set = set(bases)
     for idx, (m, a) in enumerate(zip(muts, mans)):
@@ -838,6 +893,8 @@ def run(ctx):
     idlists = [[], [(1, 2)], [(0, 0)], [(-1, -2)], [(1, 2), (1, 2)], [(18446744073709551615, 4294967296), (1, 9)]]
     for _ in range(300 if tier == "quick" else 5000):
         idlists.append([(r.choice(AIDS + [0, -5, 10 ** 25]), r.choice(IIDS + [0, -7])) for _ in range(r.choice([1, 2, 3, 9]))])
+    if "url" not in streams:
+        idlists = []
     uans = drv.batch(["url " + " ".join("%d.%d" % p for p in ids) if ids else "url" for ids in idlists])
     urls = []
     for ids, a in zip(idlists, uans):
@@ -849,7 +906,7 @@ def run(ctx):
         urls.append(want)
         cov.case("u" + hx(want), len(ids) > 0, url_ids=len(ids))
     umuts = []
-    for _ in range(1500 if tier == "quick" else 30000):
+    for _ in range((1500 if tier == "quick" else 30000) if urls else 0):
         u = bytearray(r.choice(urls))
         k = r.randrange(6)
         if k == 0 and u:
@@ -872,6 +929,38 @@ def run(ctx):
                 stream="url", url=u.decode("latin1"), model=a[:300], oracle=want[:300])
         cov.case("v" + hx(u), True, url_mut_result=("accepted" if ids is not None else "rejected"))
 
+    # ================================================================ extraction cross-check (vm_compute in Coq itself)
+    if rp is None:
+        picks = []
+        for sc, res in zip(scs, results):
+            for rec in res["records"]:
+                for cap, ex in zip(rec["requests"], rec["ex"]):
+                    if ex["method"] in ("GET", "PUT", "POST") and len(cap.raw) < 700 and not rec["oracle"][0]:
+                        picks.append((sc["host"], ex, cap.raw))
+                    break
+            if len(picks) >= 24:
+                break
+        picks = picks[::4][:6]
+
+        def cb(b):
+            return "[" + ";".join(str(x) for x in b) + "]"
+        terms = []
+        for host, ex, raw in picks:
+            body = "None" if ex["kind"] == "none" else "(Some (%s, %s))" % ("CtJson" if ex["kind"] == "json" else "CtTlv", cb(ex["body"]))
+            terms.append("(mkReq %s %s %s %s, %s)" % (ex["method"], cb(ex["target"]), cb(host.encode()), body, cb(raw)))
+        src = ("From Coq Require Import List NArith ZArith Bool.\nFrom AHK Require Import Lib.ByteStr Model.Request.\n"
+               "Import ListNotations.\nLocal Open Scope N_scope.\n"
+               "Eval vm_compute in (forallb (fun p : req * bytes => beq (render_req (fst p)) (snd p) && "
+               "match parse_req (snd p) with Some _ => true | None => false end) [" + ";\n".join(terms) + "]).\n")
+        try:
+            out = coq_eval(ctx["verif"], "C09", "xcheck", src, timeout=300)
+            if "= true" not in out:
+                add("extraction:vm-compute-mismatch", "Coq vm_compute of render_req/parse_req disagrees with the extracted driver "
+                    "on recorded requests", False, coq_output=out[-600:])
+            cov.extra["vm_compute_crosscheck"] = dict(requests=len(picks), result=out.strip()[-40:])
+        except Exception as e:  # noqa
+            add("extraction:vm-compute-failed", "coq_eval cross-check failed: " + str(e)[-400:], False)
+
     cov.extra["exhaustive"] = False
     cov.extra["exhaustive_part"] = ("finite grids completed: every host of the list (3 IPv4, 4 IPv6, 4 scoped IPv6) x {plain, encrypted} x "
                                     "every API entry point once; every 1-character string U+0000..U+007F and every 2-character string "
@@ -883,6 +972,8 @@ def run(ctx):
                                       "[-2^63, 2^64) only as 'encoder raises, nothing is sent'; connected hosts are numeric addresses "
                                       "(what getpeername returns)")
     cov.extra["disagreements_checked"] = len(viols)
+    if rp:
+        cov.extra["replayed"] = ctx["replay"]
     return dict(coverage=cov.to_dict(), violations=viols)
 
 
